@@ -118,7 +118,7 @@ func destructive(r *RNG, k int, id uint32, byID [2]byte) hotline.Transaction {
 
 func c04Family(c *Case) {
 	r := c.R
-	if tooManyStalls() {
+	if tooManyStalls(c) {
 		c.Dist("skipped/after-repeated-stalls")
 		return
 	}
@@ -409,7 +409,9 @@ func c04Family(c *Case) {
 	if wantIn {
 		// keep the session open until the login's own transactions were written (they are dropped otherwise)
 		loginOuts := 3
-		conn.gateOff = len(hs) + len(loginB)
+		// gate the EOF only: a mutated first transaction that still logs in may extend beyond the
+		// bytes the generator calls "the login"
+		conn.gateOff = len(data)
 		conn.gate = func(int) {
 			if !waitFor(5*time.Second, func() bool { return countTransactions(conn.Written()) >= loginOuts-1 }) {
 				gateOK = false
@@ -438,16 +440,23 @@ func c04Family(c *Case) {
 			}
 		}
 	}
-	loginReply := false
+	loginReply, rejectedSeen := false, false
 	if len(written) > 8 {
 		trs, _, _ := splitTransactions(written[8:])
 		for _, t := range trs {
 			if t.IsReply == 1 && u32(t.ID) == loginID && u32(t.ErrorCode) == 0 {
 				loginReply = true
 			}
+			if t.IsReply == 1 && u32(t.ID) == loginID && u32(t.ErrorCode) == 1 {
+				rejectedSeen = true
+			}
 		}
 	}
-	observedIn := registered > 0 || loginReply
+	// logged in = the peer got the success reply to its login; a registration without any reply also
+	// counts (the reply of an unexpected login can be lost when the stream ends right away), a
+	// registration next to the "Incorrect login." reply does not: that is an unauthenticated
+	// connection that touched the registry, judged below
+	observedIn := loginReply || (registered > 0 && !rejectedSeen)
 	c.Note("written", short(written))
 	c.Note("registered", registered)
 	c.Note("return", errStr(run.Err))
@@ -481,6 +490,10 @@ func c04Family(c *Case) {
 		if len(byNew) > 0 {
 			c.Note("bystanders_received", byNew)
 			c.Violation("unauthenticated-reached-other-users", "a logged-in bystander received a transaction caused by a connection that never logged in")
+			return
+		}
+		if registered > 0 {
+			c.Violation("unauthenticated-connection-registered", "a connection whose login was rejected was entered into the user registry")
 			return
 		}
 		if noticeID != 0 {
@@ -557,6 +570,6 @@ func init() {
 			"for a stream expected to log in, the bytes after the login are delivered once the login's own transactions were written (the server drops queued replies when the connection ends)",
 			"bystander inboxes are read after a keep-alive round trip on each bystander (everything queued earlier on the outbox has been handed to its writer by then)",
 		}
-		x.Add(&Family{Name: "unauth-gate", Quick: 2600, Thor: 60000, Run: c04Family})
+		x.Add(&Family{Name: "unauth-gate", Quick: 2600, Thor: 40000, Run: c04Family})
 	}
 }
